@@ -290,3 +290,36 @@ func c16PipeErrors(p *Prog, r *Report) {
 	r.Count("c16.peer_keyed_lookups", n)
 	r.Floor(R, "c16.peer_keyed_lookups", 4)
 }
+
+// e6dNotOverStrict: a minimum-length test on a message buffer must not demand more bytes
+// than the code behind it consumes: `len(m.Body) <= 4` instead of `< 4` silently drops
+// every message with an empty payload.
+func e6dNotOverStrict(p *Prog, r *Report, rule string, sel func(rel string) bool) {
+	checks := p.E6dLenChecks(sel)
+	uses := p.E6dUses(sel)
+	n := 0
+	per := map[string]int{}
+	for _, c := range checks {
+		if !strings.HasSuffix(c.Path, ".Body") {
+			continue // header-format validations on the send side are protocol rules of their own
+		}
+		maxNeed := 0
+		for _, u := range uses {
+			if u.Fn == c.Fn && u.Path == c.Path && u.Need > maxNeed {
+				maxNeed = u.Need
+			}
+		}
+		if maxNeed == 0 {
+			continue // the check guards nothing we model (e.g. a pure protocol test)
+		}
+		n++
+		per[c.Fn]++
+		key := fmt.Sprintf("%s/%s#%d", c.Fn, strings.ReplaceAll(stripObj(c.Expr), " ", ""), per[c.Fn])
+		if c.L > maxNeed {
+			r.Bad(rule, key, p.Pos(c.Pos), fmt.Sprintf("`%s` requires len(%s) >= %d but the code behind it consumes only %d bytes: valid messages of length %d..%d (e.g. an empty payload after the %d-byte header) are silently dropped", c.Expr, stripObj(c.Path), c.L, maxNeed, maxNeed, c.L-1, maxNeed))
+		} else {
+			r.OK(rule, key, p.Pos(c.Pos), fmt.Sprintf("requires >= %d, code consumes %d", c.L, maxNeed))
+		}
+	}
+	r.Count("e6d.min_length_checks", n)
+}
